@@ -127,6 +127,7 @@ def readF (version : Nat) : Nat → Parser DataType
     let c ← readShort
     if !CheckValidDataTypeCode c version then Parser.fail "invalid data type code"
     else if primCodes.contains c then pure (prim c)
+    else if c = DataTypeCodeText then pure (prim DataTypeCodeVarchar)   -- the v1/v2 alias of varchar
     else if c = DataTypeCodeCustom then do
       let cn ← readString
       pure (custom cn)
@@ -150,7 +151,7 @@ def readF (version : Nat) : Nat → Parser DataType
       let n ← readShort
       let fs ← readN n (readF version fuel)
       pure (tuple fs)
-    else Parser.fail "unknown type code"     -- e.g. DataTypeCodeText: valid, but has no decoder
+    else Parser.fail "unknown type code"
 
 def read (version : Nat) : Parser DataType := ⟨fun s => (readF version (s.length + 1)).run s⟩
 
